@@ -555,7 +555,8 @@ func vpGenCase(rng *vrand, id int, mode string) *vpCase {
 		c.Ops = append(c.Ops, op)
 		return p.exec(len(c.Ops)-1, op)
 	}
-	// two scripted witnesses of the size-0 nil dereferences (first two cases of every run)
+	// regression scenarios of the two repaired size-0 nil dereferences (first two cases of every run); the
+	// oracle reports the old signatures if a panic ever returns
 	if id == 0 && mode == "c06" {
 		run(vpOp{K: "DC", N: 0})
 		return c
@@ -660,10 +661,6 @@ func vpGenCase(rng *vrand, id int, mode string) *vpCase {
 			case 0, 1, 2:
 				op = vpOp{K: "WB", A: p.wabs, N: n}
 			case 3, 4:
-				// Reserve(0) with no write slice and shm exhausted is the known nil dereference: keep it rare
-				if n == 0 && p.snd.sendBuf.sliceList.writeSlice == nil && !rng.chance(25) {
-					n = 1
-				}
 				op = vpOp{K: "WR", A: p.wabs, N: n}
 			case 5:
 				op = vpOp{K: "WY", A: p.wabs, N: 1}
@@ -715,10 +712,6 @@ func vpGenCase(rng *vrand, id int, mode string) *vpCase {
 			case y < rb+pk:
 				op = vpOp{K: "PK", N: n}
 			case y < rb+pk+10:
-				// Discard(0) on an empty list is the known nil dereference: keep it rare
-				if n == 0 && p.rcv.recvBuf.sliceList.size() == 0 && !rng.chance(4) {
-					continue
-				}
 				op = vpOp{K: "DC", N: n}
 			case y < rb+pk+18:
 				op = vpOp{K: "RY", N: 1}
